@@ -638,10 +638,14 @@ REBUILD = Contract(
         ('closed', c.new('Operation.is_finished', cur_op(c)), ['C17', 'C10']),
         ('not-raised', Not(c.new('ComplexOperation.raised', cur_op(c))), ['C10']),
         ('called-exactly-once', c.gnew('ncalls') >= c.gold('ncalls') + 1, ['C10']),
+        ('visible-from-now-on', recorded(c), ['C04', 'C10']),
+        ('comparison-result-taken-after-the-function-returned', Not(J.is_none(c.new(
+            'BuildFileOperation.file_comparison_result', cur_op(c)))), ['C13', 'C10']),
     ] + append_only(c, True),
     raises=[ExcSpec('Exception', ensures=lambda c: [
         ('closed', c.new('Operation.is_finished', cur_op(c)), ['C17', 'C10']),
         ('marked-raised', c.new('ComplexOperation.raised', cur_op(c)), ['C10']),
+        ('failed-output-stays-invisible', recorded(c), ['C04', 'C10']),
     ] + append_only(c, True)),
         ExcSpec('KeyboardInterrupt', ensures=lambda c: append_only(c, True))],
     modifies=builder_mods,
@@ -815,7 +819,12 @@ IS_BF_CACHED = Contract(
     params={'self': FB, 'operation': OBJ('BuildFileOperation')}, returns=BOOL,
     requires=lambda c: [('recorded-result-is-json', J.eqdom(c.old(
         'BuildFileOperation.file_comparison_result', c.operation)))],
-    ensures=lambda c: no_effect(c),
+    ensures=lambda c: no_effect(c) + [
+        ('intact-outputs-exist', Implies(
+            And(c.res, Not(J.is_none(c.old('BuildFileOperation.file_comparison_result',
+                                           c.operation)))),
+            c.gold('fs_kind')[c.old('BuildFileOperation.filename', c.operation)] == K_FILE),
+         ['C01', 'C13'])],
     raises=[ExcSpec('OSError', ensures=no_effect), ExcSpec('ValueError', ensures=no_effect)],
     modifies=lambda c: ['SimpleOperationExecutor._hash_cache'],
     lemmas=['sanitized_eqdom'],
